@@ -4,7 +4,7 @@ from .solve import discharge_all, ok
 import z3
 
 def prove_lemmas(reg, th, ex_factory):
-    """induction lemmas declared in the registry: base + step obligations, then available as axioms"""
+    """induction lemmas declared in the registry: base + step obligations; each proved lemma is available as an axiom to the later ones"""
     obs = []
     for L in reg.lemmas:
         ex = ex_factory()
@@ -16,15 +16,12 @@ def prove_lemmas(reg, th, ex_factory):
             s2 = st.copy(); s2.env[L.induct] = Val(INT, nz); return ex.spec_expr(L.stmt, s2, []).z
         pre = [ex.spec_expr(L.requires, st, []).z] if L.requires else []
         g0, gn, gn1 = stmt_at(z3.IntVal(0)), stmt_at(n), stmt_at(n + 1)      # translate first: declares the spec functions' axioms
-        obs.append(Obligation(f"lemma.{L.name}.base", "lemma", th.hyps() + pre, g0))
-        obs.append(Obligation(f"lemma.{L.name}.step", "lemma", th.hyps() + pre + [n >= 0, gn], gn1))
+        mine = [Obligation(f"lemma.{L.name}.base", "lemma", th.hyps() + pre, g0), Obligation(f"lemma.{L.name}.step", "lemma", th.hyps() + pre + [n >= 0, gn], gn1)]
         bound = [st.env[v].z for v in L.vars]
         body = z3.Implies(z3.And(n >= 0, *pre), stmt_at(n))
         trig = ex.spec_expr(L.trigger, st, []).z if L.trigger else None
         L._axiom = z3.ForAll(bound, body, patterns=[trig]) if trig is not None else z3.ForAll(bound, body)
-    discharge_all(obs)
-    for L in reg.lemmas:
-        mine = [o for o in obs if o.name.startswith(f"lemma.{L.name}.")]
+        discharge_all(mine); obs += mine
         if all(o.status == "proved" for o in mine): th.lemma_axioms.append(L._axiom)
     return obs
 
